@@ -72,12 +72,13 @@ def program(fns, consts=None, structs=None):
     return {"structs": structs or [], "consts": consts or [], "fns": fns}
 
 
-def run_programs(programs, layouts, seed, tag):
-    """-> list of result records {i, source, results:[{layout, stdout, exit | rejected, diags | crash | lli}]}"""
+def run_programs(programs, layouts, seed, tag, split=False):
+    """-> list of result records {i, source, results:[{layout, stdout, exit | rejected, diags | crash | lli}]}
+    split: one more variant per program, marked {"split": true}: the declarations split over lib.pn and main.pn"""
     inp = os.path.join(common.WORK, "%s-%d-programs.ndjson" % (tag, os.getpid()))
     out = os.path.join(common.WORK, "%s-%d-results.ndjson" % (tag, os.getpid()))
     common.write_ndjson(inp, programs)
-    common.pvh(["run", inp, out, layouts, seed], exe_name="pvh_machine", timeout=7200)
+    common.pvh(["run", inp, out, layouts, seed], exe_name="pvh_machine", timeout=7200, env=None if split else {"PVH_NO_SPLIT": "1"})
     res = common.read_ndjson(out)
     if len(res) != len(programs):
         raise common.ToolError("pvh_machine returned %d results for %d programs" % (len(res), len(programs)))
